@@ -594,7 +594,8 @@ class Interp:
         raise Undecided("global statement")
 
     def s_Nonlocal(self, s, env):
-        raise Undecided("nonlocal statement")
+        # assignments to these names go to the nearest enclosing function scope that binds them
+        env.vars.setdefault("__nonlocal__", set()).update(s.names)
 
     def s_FunctionDef(self, s, env):
         defaults = [self.eval(d, env) for d in s.args.defaults]
@@ -642,6 +643,20 @@ class Interp:
 
     def assign(self, t, v, env):
         if isinstance(t, ast.Name):
+            e = env
+            # comprehension / block scopes chain to the function scope that declared `nonlocal`
+            while e is not None:
+                if t.id in e.vars.get("__nonlocal__", ()):
+                    p = e.parent
+                    while p is not None and t.id not in p.vars:
+                        p = p.parent
+                    if p is None:
+                        raise PyRaise(SyntaxError, (f"no binding for nonlocal {t.id}",))
+                    p.vars[t.id] = v
+                    return
+                if t.id in e.vars:
+                    break
+                e = e.parent
             env.vars[t.id] = v
         elif isinstance(t, (ast.Tuple, ast.List)):
             items = self.iterate(v)
@@ -1204,6 +1219,10 @@ class Interp:
                 return obj.fields[name]
             if name == "__class__":
                 return obj.cls
+            if name == "__getattribute__" or name == "__getattr__":
+                return Handler(lambda it, n: it.getattr(obj, it.concrete_key(n)), "object.__getattribute__")
+            if name == "__setattr__":
+                return Handler(lambda it, n, v: it.setattr(obj, it.concrete_key(n), v), "object.__setattr__")
             try:
                 static = inspect.getattr_static(obj.cls, name)
             except AttributeError:
